@@ -49,7 +49,8 @@ def run(tier, rep):
         for p in range(1, procs + 1):
             c.harness(["c05-repeat", "--cases", cases, "--reps", 0, "--threads", 0, "--stride", stride,
                        "--random", nrandom, "--seed", c.seed(), "--digests", dig + ".%d" % p,
-                       "--reverse", 1 if p % 2 == 0 else 0], timeout=3000, env=ENVS[p % len(ENVS)], cwd=CWDS[p % len(CWDS)])
+                       "--reverse", 1 if p == 2 else 0, "--shuffle", 0 if p <= 2 else c.seed() + p],
+                      timeout=3000, env=ENVS[p % len(ENVS)], cwd=CWDS[p % len(CWDS)])
             other = open(dig + ".%d" % p).read()
             if other != base:
                 idx = next(i for i, (a, b) in enumerate(zip(base.split("\n"), other.split("\n"))) if a != b)
@@ -69,7 +70,7 @@ def run(tier, rep):
     # renderer side: trees enumerated by TLC over pools in which the identifier disambiguation has work to do (colliding
     # names, literal name_N / name_attr / text_content forms, gaps in the suffix sequence), each rendered repeatedly
     from . import render_common as rc
-    for pool in ("suffixgap", "suffixlit", "fields", "concat", "depth"):
+    for pool in ("suffixgap", "suffixlit", "fields", "concat", "depth", "kwjoin"):
         if pool in ("concat", "depth"):
             # struct names across buckets: a name equal to the qualified name of another, ambiguous one
             r, tcases = rc.run_pool("C05", pool, 5 if pool == "concat" else 6, 2, ("add",), invariants=["Unique", "EmitCase"], timeout=300)
@@ -78,7 +79,27 @@ def run(tier, rep):
         rep.add(states=r.distinct, transitions=r.generated)
         total, kept = rc.thin(tcases, 4000 if tier == "quick" else 200000)
         mm = os.path.join(c.OUT, "cases", "C05-trees.mm.ndjson")
-        s = c.harness(["api-replay", "--cases", tcases, "--repeat", 12 if tier == "quick" else 60, "--mismatches", mm], timeout=3000)
+        dig = os.path.join(c.OUT, "cases", "C05-trees.digests")
+        s = c.harness(["api-replay", "--cases", tcases, "--repeat", 12 if tier == "quick" else 60, "--mismatches", mm,
+                       "--digests", dig + ".0"], timeout=3000)
+        # fresh processes that build and render the same trees in the opposite order and in shuffled orders must produce
+        # the same texts (two trees that disturb each other through process-wide state meet in either order)
+        a0 = open(dig + ".0").read().split("\n")
+        for k in range(1, 7):
+            c.harness(["api-replay", "--cases", tcases, "--repeat", 1, "--reverse", 1 if k == 1 else 0, "--shuffle", 0 if k == 1 else c.seed() + k,
+                       "--digests", dig + ".1"], timeout=3000, env=ENVS[k % len(ENVS)], cwd="/")
+            a1 = open(dig + ".1").read().split("\n")
+            if a0 != a1:
+                idx = next((i for i, (x, y) in enumerate(zip(a0, a1)) if x != y), min(len(a0), len(a1)))
+                import json as _json
+                with open(tcases) as f:
+                    ops = _json.loads(f.readlines()[idx])["ops"] if idx < min(len(a0), len(a1)) else []
+                rep.violation({"kind": "repeat-tree", "class": "c05", "how": "fresh process, trees built in another order", "pool": pool, "ops": ops},
+                              "a fresh process that renders the trees of pool %s in another order renders tree %d differently (%s)" % (
+                                  pool, idx, [rc.unatom(o.get("name", [])) for o in ops]))
+                break
+        for f2 in (dig + ".0", dig + ".1"):
+            os.remove(f2)
         for m in c.read_ndjson(mm):
             if m.get("kind") == "repeat-tree":
                 rep.violation(m, "a tree built by %s renders differently on repetition: %s" % (
